@@ -14,7 +14,7 @@ from ..deg import POLY, TOP, DegChecker
 from ..lin import lin_eq
 from ..pat import find_expr, find_stmt, match_expr, match_stmt
 from ..pm import src
-from ..q import FA, call_name, compare_parts, const, is_neg_inf, is_self_attr, walk_no_nested
+from ..q import FA, call_name, compare_parts, const, guard_facts, is_neg_inf, is_self_attr, mode_under, walk_no_nested
 
 TECHNIQUE = "R-SIB: canonical-form comparison of the three shrinkage implementations, the final live-count schedules and the boundary constructions against the documented formulas; R-DEG: shift-degree type checking (abstract interpretation) of every expression in the integrator and weight functions; order-insensitive linear forms for the quadrature rules"
 
@@ -36,34 +36,23 @@ def _canon_shrinkage(value):
 
 
 def shrinkage_branches(fi):
-    """({mode literal: (canonical expression, node)}, name of the shrinkage variable) from the if/elif
-    chain on the expectation string; local names are irrelevant."""
-    out = {}
-    var = None
-    for n in walk_no_nested(fi.node):
-        if isinstance(n, ast.If):
-            p = compare_parts(n.test)
-            if p and p[1] == "Eq" and "expectation" in src(p[0]) and isinstance(p[2], ast.Constant):
-                cur = n
-                while True:
-                    p = compare_parts(cur.test)
-                    mode = p[2].value if p and isinstance(p[2], ast.Constant) else None
-                    a = _single_target_assign([s for s in cur.body if not (isinstance(s, ast.Expr) and isinstance(s.value, ast.Constant))])
-                    if mode is not None and a is not None:
-                        out[mode] = (_canon_shrinkage(a.value), a)
-                        var = var or a.targets[0].id
-                        if a.targets[0].id != var:
-                            return {}, None
-                    if len(cur.orelse) == 1 and isinstance(cur.orelse[0], ast.If):
-                        cur = cur.orelse[0]
-                        continue
-                    a = _single_target_assign([s for s in cur.orelse if not (isinstance(s, ast.Expr) and isinstance(s.value, ast.Constant))]) if cur.orelse and not any(isinstance(x, ast.Raise) for x in cur.orelse) else None
-                    if a is not None and a.targets[0].id == var:
-                        other = [m for m in ("logt", "t") if m not in out]
-                        if len(other) == 1:
-                            out[other[0]] = (_canon_shrinkage(a.value), a)
-                    break
-                break
+    """({mode literal: (canonical expression, node)}, name of the shrinkage variable): the single-name
+    assignments that run under a test of the expectation string, keyed by the mode the guards leave
+    (shape of the if / elif / else chain, order of its arms and local names are irrelevant)."""
+    fa = FA(fi)
+    out, var = {}, None
+    is_sel = lambda e: "expectation" in src(e)
+    for n in fa.nodes():
+        st = n.ast
+        if n.kind != "stmt" or not (isinstance(st, ast.Assign) and len(st.targets) == 1 and isinstance(st.targets[0], ast.Name)):
+            continue
+        mode = mode_under(guard_facts(fa, n.id), is_sel, universe=("t", "logt"))
+        if mode is None:
+            continue
+        if mode in out or (var is not None and st.targets[0].id != var):
+            return {}, None
+        var = st.targets[0].id
+        out[mode] = (_canon_shrinkage(st.value), st)
     return out, var
 
 
